@@ -26,6 +26,8 @@ def orthogonal_families(repo):
             continue
         callees = {dotted(c.func) for c in paths.calls_in(f.node)}
         repo_callees = {c for c in callees if c and repo.has_func(OP, c)}
+        # helpers that are SO3_Adj under another name (their single return is a call of an orthogonal builder)
+        repo_callees = {('SO3_Adj' if _is_rotation_alias(repo, c) else c) for c in repo_callees}
         inl = inline_straight(f.node)
         diag_only = all(_diag_block(idx) for bk, idx, val, st in inl.stores)
         rets = returns_of(f.node)
@@ -38,6 +40,19 @@ def orthogonal_families(repo):
                 not any(isinstance(n, ast.Call) and dotted(n.func) in ('torch.cat', 'torch.matmul') for n in ast.walk(v))
         out[fam] = repo_callees <= {'SO3_Adj'} and bool(inl.stores) and diag_only and base_eye
     return out
+
+
+def _is_rotation_alias(repo, name, depth=0):
+    if name == 'SO3_Adj':
+        return True
+    if depth > 3 or not repo.has_func(OP, name):
+        return False
+    g = repo.func(OP, name)
+    rets = returns_of(g.node)
+    if len(rets) == 1 and isinstance(rets[0].value, ast.Call) and len(g.node.body) <= 2:
+        d = dotted(rets[0].value.func)
+        return d is not None and _is_rotation_alias(repo, d, depth + 1)
+    return False
 
 
 def skew_families(repo):
@@ -227,10 +242,20 @@ def rule_vt(repo, tier):
     orth, skew = orthogonal_families(repo), skew_families(repo)
     res.notes.append('orthogonal Adj families (derived): %s' % sorted(k for k, v in orth.items() if v))
     res.notes.append('skew ad families (derived): %s' % sorted(k for k, v in skew.items() if v))
-    if not (orth['SO3'] and orth['RxSO3'] and not orth['SE3'] and not orth['Sim3']):
-        raise AnalysisError('C04.VT: derived orthogonal-Adj table is %s, expected {SO3, RxSO3}' % orth)
-    if not (skew['SO3'] and skew['RxSO3'] and not skew['SE3'] and not skew['Sim3']):
-        raise AnalysisError('C04.VT: derived skew-ad table is %s, expected {SO3, RxSO3}' % skew)
+    # Lie-theoretic table (trusted base): Adj is orthogonal / ad is skew exactly for the rotation(-scale) groups
+    for fam in FAMS:
+        want = fam in ('SO3', 'RxSO3')
+        if orth[fam] != want:
+            b = repo.func(OP, fam + '_Adj')
+            res.add(Finding('C04.VT', b, '%s_Adj %s the block structure of an orthogonal adjoint (SO3_Adj blocks on the diagonal of an '
+                            'identity) but Adj(%s) %s orthogonal: either the adjoint matrix is wrong or the backward shortcuts relying on '
+                            'orthogonality are' % (fam, 'has' if orth[fam] else 'no longer has', fam, 'is not' if not want else 'is'),
+                            construct='%s_Adj structure' % fam))
+        if skew[fam] != want:
+            b = repo.func(OP, ALG[fam] + '_adj')
+            res.add(Finding('C04.VT', b, '%s_adj %s the block structure of a skew-symmetric ad (vec2skew blocks on the diagonal of a zero '
+                            'matrix), contrary to the Lie algebra of %s' % (ALG[fam], 'has' if skew[fam] else 'no longer has', fam),
+                            construct='%s_adj structure' % ALG[fam]))
     for fam in FAMS:
         for op in OPS8:
             cname = op_class(fam, op)
